@@ -133,6 +133,23 @@ CHECKS = {
               'the larger permutations); refuted obligations are replayed on the real chi code over a numeric stand-in solver (pvc/pysim.py).'),
         technique='contract-based deductive verification with an assumed (ghost) solver contract: symbolic execution of the real code, structural comparison of the solver state',
     ),
+    'C10': dict(
+        category='proof',
+        text=('(a) PKPDModel.set_dosing_regimen with symbolic dose, start, duration, period and dose count installs - as the reported regimen '
+              'and in the (ghost) solver - exactly one pacing event with level x duration = dose and the given start / duration / period / '
+              'multiplier (all None-patterns, direct and indirect route; explicit protocols installed as is); (b) set_administration changes '
+              'the model equations exactly as specified (direct: d amount/dt = old + dose rate bound to the pacing variable; indirect: '
+              'first-order depot; no other equation changed) on every library model with a central compartment and generated 1-3 state '
+              'models, as sympy identities on the real myokit objects; (c) lemma: every scheduled event injects exactly its dose; '
+              '(d) PredictiveModel.get_dosing_regimen(final_time) is traced with symbolic event fields and final time (the list '
+              'comprehension over the symbolic number of doses by a generic loop element) and z3 proves that the listed rows are exactly '
+              'the events the simulation applies up to the final time, with the right (time, duration, amount), for finite, single and '
+              'indefinite regimens and for no final time.  Regimens derived from datasets are pandas routing (C14).'),
+        design_ref='DESIGN.md section 4 (C10)',
+        note=('Assumed: myokit.pacing.blocktrain and the solver\'s pacing semantics; the ODE solver itself; one event per protocol in (d). '
+              'One genuine defect found by this check was repaired (fix commit cbc562e).'),
+        technique='contract-based deductive verification: symbolic execution over a ghost solver, sympy identities on myokit models, z3 (LIA/LRA with floor) for the event-set equality',
+    ),
     'C11': dict(
         category='proof',
         text=('Representation invariants of SBMLModel / PKPDModel / ReducedMechanisticModel over the ghost solver: (1) the protocol the '
@@ -181,6 +198,7 @@ CHECK_MODULES = {
     'C06': 'contracts.c06',
     'C07': 'contracts.c07',
     'C09': 'contracts.c09',
+    'C10': 'contracts.c10',
     'C11': 'contracts.c11',
     'C12': 'contracts.c12',
 }
